@@ -7,6 +7,8 @@ use crate::refegg::{Model, Stop};
 use egglog::EGraph;
 
 pub mod c01;
+pub mod c03;
+pub mod corpus;
 pub mod c16;
 pub mod c17;
 pub mod c19;
